@@ -277,7 +277,15 @@ class Ctx:
             raise PathLimit('step limit')
 
 
-def explore(run_path, max_paths=4000, time_limit=600):
+class UnsupportedPath:
+    """outcome of a path the executor could not follow to its end (kind 'unsupported'); the path condition up to that point is in ctx"""
+    kind = 'unsupported'
+
+    def __init__(self, detail):
+        self.detail = detail
+
+
+def explore(run_path, max_paths=4000, time_limit=600, keep_unsupported=False):
     """Depth-first exploration of all decision vectors.  run_path(ctx) executes one path and
     returns an outcome object (or raises Infeasible).  Returns list of (ctx, outcome)."""
     work = [[]]
@@ -291,6 +299,11 @@ def explore(run_path, max_paths=4000, time_limit=600):
             out = run_path(ctx)
         except Infeasible:
             out = 'infeasible' if ctx.obligations else None
+        except Unsupported as e:
+            if not keep_unsupported:
+                raise
+            out = UnsupportedPath(str(e))
+            ctx.obligations = []
         for alt in ctx.alternatives:
             work.append(alt)
         if out is not None:
